@@ -64,13 +64,15 @@ func (c *capRoute) Snapshot() route.Snapshot {
 	}
 	return route.Snapshot{Matcher: m, Type: "capture", Key: c.key}
 }
-func (c *capRoute) Key() string              { return c.key }
-func (c *capRoute) Flush() error             { return nil }
-func (c *capRoute) Shutdown() error          { return nil }
+func (c *capRoute) Key() string     { return c.key }
+func (c *capRoute) Flush() error    { return nil }
+func (c *capRoute) Shutdown() error { return nil }
 func (c *capRoute) GetDestination(index int) (*destination.Destination, error) {
 	return nil, fmt.Errorf("capture route has no destinations")
 }
-func (c *capRoute) DelDestination(index int) error { return fmt.Errorf("capture route has no destinations") }
+func (c *capRoute) DelDestination(index int) error {
+	return fmt.Errorf("capture route has no destinations")
+}
 func (c *capRoute) UpdateDestination(index int, opts map[string]string) error {
 	return fmt.Errorf("capture route has no destinations")
 }
@@ -447,7 +449,7 @@ func checkTableRun(x *Exec, s *simrt.Sim, prop string, bt *builtTable, lines [][
 	// in timeful runs aggregations flush: their output (names starting with agg) is not modelled here (see C10/C11)
 	isAgg := func(l string) bool { return timeful && strings.HasPrefix(l, "agg") }
 	tp := bt.Plan
-	wantCap := map[int][]string{}    // route index -> forwarded lines (multiset, as sorted list)
+	wantCap := map[int][]string{}     // route index -> forwarded lines (multiset, as sorted list)
 	wantDest := map[string][]string{} // dest addr -> forwarded lines
 	wantAggIn := make([]int64, len(tp.Aggs))
 	var nIn, nInvalid, nBlack, nUnroutable int64
